@@ -412,4 +412,9 @@ theorem C05_attr_value_is_stored (e : Env) (f : FieldSig) (a : String) (v : Val)
 every run) -/
 theorem C05_source_attr_value_by_presence : DEvo.Generated.attrValueByPresence = true := by decide
 
+/-- `C05_self` speaks about a signature and ITSELF; the code diffs a signature with its `clone()`.  The
+model's clone is the identity, and the source's clone is a copy of every constructor attribute of every
+signature class - none is left to its default (read by the translator on every run) -/
+theorem C05_source_clone_passes_every_attribute : DEvo.Generated.cloneOmits = [] := by decide
+
 end DEvo.Props.C05
